@@ -30,7 +30,7 @@ def eventsOfC : List (CRes M) → List (CEvent M)
 /-- `Collection.Update(id, msg, opts...)` whose callback at `site` makes the calls `calls`. -/
 def Coll.updateN (cfg : Cfg M K R) (s : CState M R) (id : String) (msg : M) (wr : WriteReq M K)
     (site : Site) (calls : List (COp M K)) : COut M × CState M R × List (CRes M) :=
-  let id := icptId cfg id
+  let id := updKey cfg wr id
   let u := fieldUpdater cfg wr
   match cfg.ops.validate u msg with
   | some c => ({ val := none, err := some c, events := [], idCalls := [], createdCalls := 0 }, s, [])
